@@ -48,6 +48,7 @@ type env struct {
 	dig   [][]byte
 	sigs  [][]byte // ASN.1 signatures by priv[i] over dig[i]
 	ssigs [][]byte // Schnorr signatures by spriv[i] over dig[i]
+	dst   [][]byte // shared domain separation tags (two tags that share a prefix and a backing array)
 	rs    [][3][]byte
 }
 
@@ -76,6 +77,16 @@ func drawRaw(t *rapid.T) raw {
 
 type fataler interface{ Fatalf(string, ...any) }
 
+// spare returns a copy of b with room to spare behind it: every byte slice
+// the goroutines share is a sub-slice of a larger buffer, as slices cut out of
+// network buffers, hex.DecodeString results or append-built tags are.  A callee
+// that appends to a read-only operand then writes shared memory.
+func spare(b []byte) []byte {
+	buf := make([]byte, len(b), len(b)+24)
+	copy(buf, b)
+	return buf
+}
+
 // build creates fresh library objects from r.  Apart from the constructors
 // (and one signing call per key to obtain signatures to verify) nothing has
 // been called on them yet, so lazily initialised state inside an object is
@@ -92,8 +103,10 @@ func build(t fataler, r raw, sigsFrom *env) *env {
 		}
 		e.spriv = append(e.spriv, sk)
 		e.spub = append(e.spub, sk.PublicKey())
-		e.dig = append(e.dig, append([]byte(nil), r.dig[i]...))
+		e.dig = append(e.dig, spare(r.dig[i]))
 	}
+	tags := spare([]byte("verif-c20-dst/extended"))
+	e.dst = [][]byte{tags[:13], tags} // "verif-c20-dst" and the longer tag, one backing array
 	for i := 0; i < 3; i++ {
 		lp := lib.Pt(r.pts[i])
 		if i == 1 { // a point in a non-trivial projective representation
@@ -111,7 +124,7 @@ func build(t fataler, r raw, sigsFrom *env) *env {
 		if ls, neg := ref.LowS(s); neg {
 			s, id = ls, id^1
 		}
-		e.sigs = append(e.sigs, ref.EncodeDERSig(r, s))
+		e.sigs = append(e.sigs, spare(ref.EncodeDERSig(r, s)))
 		e.rs = append(e.rs, [3][]byte{ref.B32(r), ref.B32(s), {byte(id)}})
 	}
 	for i := range e.spriv {
@@ -119,7 +132,7 @@ func build(t fataler, r raw, sigsFrom *env) *env {
 		if !ok {
 			t.Fatalf("reference schnorr sign failed")
 		}
-		e.ssigs = append(e.ssigs, ss)
+		e.ssigs = append(e.ssigs, spare(ss))
 	}
 	return e
 }
@@ -249,13 +262,13 @@ func (e *env) exec(o op) []byte {
 	case "scalar.observe":
 		return []byte{byte(e.scs[a3].Equal(e.scs[b3])), byte(e.scs[a3].IsZero()), byte(e.scs[a3].IsGreaterThanHalfN()), e.scs[c3].Bytes()[31]}
 	case "h2c.ro":
-		p, err := h2c.Secp256k1_XMD_SHA256_SSWU_RO([]byte("verif-c20-dst"), e.dig[i])
+		p, err := h2c.Secp256k1_XMD_SHA256_SSWU_RO(e.dst[j], e.dig[i])
 		if err != nil {
 			return []byte("error")
 		}
 		return p.CompressedBytes()
 	case "h2c.nu":
-		p, err := h2c.Secp256k1_XMD_SHA256_SSWU_NU([]byte("verif-c20-dst"), e.dig[i])
+		p, err := h2c.Secp256k1_XMD_SHA256_SSWU_NU(e.dst[j], e.dig[i])
 		if err != nil {
 			return []byte("error")
 		}
